@@ -31,6 +31,10 @@ Proof.
   unfold is_name_letter. intro H. apply existsb_exists in H. destruct H as [x [Hin Hx]]. apply letter_eqb_eq in Hx. subst x.
   unfold Entity.alphabet. apply in_or_app. right. exact Hin.
 Qed.
+Lemma name_letter_In l : is_name_letter l = true -> In l name_letters.
+Proof.
+  unfold is_name_letter. intro H. apply existsb_exists in H. destruct H as [x [Hin Hx]]. apply letter_eqb_eq in Hx. subst x. exact Hin.
+Qed.
 Ltac ina := unfold Entity.alphabet; apply in_or_app; left; repeat (first [left; reflexivity | right]).
 
 (* a name letter is none of the fixed keywords of these statements *)
